@@ -102,6 +102,7 @@ pub fn arg_class(m: &Model, op: &Op) -> String {
             CopyMode::All(_) => "all",
             CopyMode::Dirs(_) => "dirs",
             CopyMode::Files(_) => "files",
+            CopyMode::Two(..) => "two-options",
         }, o.follow)),
         _ => {},
     }
